@@ -146,7 +146,7 @@ class DBGen:
         ret = self.nsnap
         if not self.wtx:
             for i, it in self.iters.items():
-                if it.get("obs") and it["st"] == "open" and it["t"] in w["tables"]:
+                if it.get("obs") and not it.get("derive") and it["st"] == "open" and it["t"] in w["tables"]:
                     self.obsread(i)
         return ret
 
@@ -1005,7 +1005,66 @@ def from_graveyard(rng, hist):
     return g.finish()
 
 
+def gen_derive(rng, mode):
+    """statedb.Derive: table 1 mirrors table 0 through the harness' transformation (skip / update-only / insert by
+    value, deletions delete).  User writes go to table 0 only (incl. aborted transactions, delete + re-insert in one
+    transaction, initializers of table 0); after every step the job is given time and table 1 is read back in
+    full: contents, revisions, initialization state and watch channels on it."""
+    g = DBGen(rng, mode)
+    g.add(op="config", nilempty=False)
+    tin, tout = g.newtable(), g.newtable()
+    use_init = rng.random() < 0.6
+    if use_init:
+        tx = g.begin([tin])
+        g.add(op="reginit", tx=tx, t=tin, name="a")
+        g.commit(tx)
+    if rng.random() < 0.5:
+        tx = g.begin([tin])
+        for _ in range(rng.randint(1, 3)):
+            g.write(tx, tin, p_guarded=0, rich=False)
+        g.commit(tx)
+    g.niter += 1
+    it = g.niter
+    g.iters[it] = dict(t=tin, st="open", tx=None, lastgen=g.tgen[tin], obs=True, derive=True)
+    g.add(op="derive", it=it, t=tin, t2=tout)
+
+    def check(ctx=""):
+        g.add(op="derivesync", it=it, t2=tout)
+        g.tgen[tout] += 1
+        s = g.snap()
+        src = g.snap_src(s)
+        g.q(src, tout, "id", "all", [], watch=True, ctx=ctx)
+        g.q(src, tout, "id", "get", PKS[rng.randrange(5)], watch=True, ctx=ctx)
+        g.scalar(src, tout, "rev", ctx=ctx)
+        g.scalar(src, tout, "num", ctx=ctx)
+        g.add(op="init", src=src, t=tout, w=g.chan())
+        g.chans()
+
+    check()
+    done = False
+    for _ in range(rng.randint(3, 8)):
+        tx = g.begin([tin])
+        for _ in range(rng.randint(1, 4)):
+            g.write(tx, tin, p_guarded=0.1, rich=False)
+        if use_init and not done and rng.random() < 0.3:
+            g.add(op="markdone", tx=tx, t=tin, name="a")
+            marked = True
+        else:
+            marked = False
+        if rng.random() < 0.8:
+            g.commit(tx)
+            done = done or marked
+        else:
+            g.abort(tx)
+        check()
+        if rng.random() < 0.2:
+            g.sleep(rng.choice([300, 2500]))
+            check()
+    return g.finish()
+
+
 MODES = {
+    "derive": gen_derive,
     "c01dense": gen_c01_dense, "c02dense": gen_c01_dense,
     "c06dense": gen_c06_dense,
     "gcwindow": gen_gcwindow,
